@@ -22,7 +22,8 @@ ASSUMPTIONS = ["absence / presence of backend modules is simulated by a meta-pat
                "the per-call argument of the graph functions is taken as 'explicit argument'; division_connected has none and follows the flag"]
 REQUIRED = ["c20.children", "c20.auto_detect", "c20.env_backend", "c20.bogus_env_backend", "c20.bad_bool_env", "c20.per_call_backend", "c20.post_assign_backend",
             "c20.prim_arg_true", "c20.prim_arg_false", "c20.prim_from_flag", "c20.acyclic", "c20.expect_native", "c20.expect_no_native",
-            "c20.entry.sugar-exe", "c20.entry.cspuz_core", "c20.entry.enigma_csp", "c20.entry.pycsugar", "c20.class.Z3Backend", "c20.valueerror_expected"]
+            "c20.entry.sugar-exe", "c20.entry.cspuz_core", "c20.entry.enigma_csp", "c20.entry.pycsugar", "c20.class.Z3Backend", "c20.valueerror_expected", "c20.followup_solves", "c20.followup_entry.cspuz_core",
+            "c20.followup_entry.pycsugar", "c20.followup_entry.enigma_csp", "c20.followup_entry.sugar-exe"]
 HOME = os.environ.get("VERIF_HOME", "/verif")
 REPO = os.environ.get("VERIF_REPO", "/repo")
 NAMES = ["z3", "sugar", "sugar_extended", "csugar", "enigma_csp", "cspuz_core"]
@@ -130,6 +131,13 @@ def gen_cfg(rng):
     cfg["prim_arg"] = rng.choice([None, None, True, False]) if cfg["fn"] in ("avc", "avc_graph", "cycle", "crossable", "borders") else None
     cfg["backend_arg"] = rng.choice([None, None, None] + NAMES + ["nope", "CLASS:z3", "CLASS:cspuz_core"])
     cfg["call"] = rng.choice(["find_answer", "solve"])
+    # later solves in the same process: what one solve loaded or remembered must not decide who receives the next one
+    cfg["followups"] = []
+    for _ in range(rng.choice([0, 1, 2, 3])):
+        fu = {"backend_arg": rng.choice([None] + NAMES + NAMES + ["nope"]), "call": rng.choice(["find_answer", "solve"])}
+        if rng.random() < 0.3:
+            fu["default_backend"] = rng.choice(NAMES)
+        cfg["followups"].append(fu)
     return cfg
 
 
@@ -267,6 +275,44 @@ def judge(ctx, cfg, obs):
         bad(f"solve-raises:{obs['solve_error']}", f"solve through {exp['backend_name']} raised {obs['solve_error']}: {obs.get('solve_error_text')}")
 
 
+def judge_followups(ctx, cfg, obs):
+    """Each later solve of the same process is judged against the same decision table (plain program: no natives involved)."""
+    exp = expected(cfg)
+    if exp.get("import_error") or obs.get("import_error") or obs.get("build_error"):
+        return
+    default = (cfg.get("post") or {}).get("default_backend", exp["default_backend"])
+    for k, (fu, rec) in enumerate(zip(cfg.get("followups") or [], obs.get("followups") or [])):
+        default = fu.get("default_backend", default)
+        name = fu["backend_arg"] if fu.get("backend_arg") is not None else default
+        w = {"config": cfg, "followup": k, "expected_backend": name, "observed": rec}
+        ctx.count("c20.followup_solves")
+        if name not in CLASS_OF:
+            if rec.get("solve_error") != "ValueError" or rec.get("instantiated"):
+                ctx.violation("followup:unknown-backend-not-rejected", f"later solve with backend name {name!r}: {rec}", w)
+            continue
+        inst = rec.get("instantiated") or []
+        if not inst or any(c != CLASS_OF[name] for c in inst):
+            ctx.violation("followup:wrong-backend-class", f"later solve #{k + 1}: classes instantiated {inst}, expected {CLASS_OF[name]}", w)
+            continue
+        mod = MODULE_OF.get(name)
+        if mod is not None and mod not in cfg["present"]:
+            if rec.get("solve_error") not in ("ImportError", "ModuleNotFoundError"):
+                ctx.violation("followup:absent-module-used", f"later solve #{k + 1} through {name}: module absent but no ImportError ({rec})", w)
+            continue
+        ent = rec.get("entries") or []
+        if name == "z3":
+            if ent:
+                ctx.violation("followup:wrong-entry-point", f"later solve #{k + 1}: z3 selected but {ent} invoked", w)
+            continue
+        if not ent or any(e != ENTRY_OF[name] for e in ent):
+            ctx.violation("followup:wrong-entry-point", f"later solve #{k + 1} through {name}: entry points {ent}, expected {ENTRY_OF[name]} "
+                          f"(solve_error={rec.get('solve_error')})", w)
+            continue
+        ctx.count("c20.followup_entry." + ENTRY_OF[name])
+        if rec.get("solve_error"):
+            ctx.violation(f"followup:solve-raises:{rec['solve_error']}", f"later solve #{k + 1} through {name} raised {rec.get('solve_error_text')}", w)
+
+
 def run(ctx):
     rng = ctx.rng
     n = 110 if ctx.tier == "quick" else 2500
@@ -280,6 +326,7 @@ def run(ctx):
             ctx.inconc("child produced no observation", {"config": cfg, "err": err})
             continue
         judge(ctx, cfg, obs)
+        judge_followups(ctx, cfg, obs)
         if t < 1:
             ctx.sample({"config": cfg, "expected": expected(cfg)})
 
